@@ -430,6 +430,10 @@ func (ex *Exec) funcScope(fn *ssa.Function, con *Contract) *specScope {
 
 // ifaceScope prepares a scope for the abstract contract of an interface method.
 func (ex *Exec) ifaceScope(named *types.Named, m *types.Func) (*specScope, []*types.Var, *types.Var) {
+	// One scope per generic interface method: the parameters are typed with the *generic*
+	// signature (type parameters), and ifaceEnv maps the type parameters to the type arguments of
+	// the instantiation at hand. (Typing them with the first instantiation met - Iterator[Record]
+	// - made `modifies *t` havoc a Record where a Step was passed.)
 	key := "iface:" + named.Obj().Pkg().Path() + "." + named.Obj().Name() + "." + m.Name()
 	pk := ex.prog.Pkgs[named.Obj().Pkg().Path()]
 	if pk == nil {
@@ -451,6 +455,13 @@ func (ex *Exec) ifaceScope(named *types.Named, m *types.Func) (*specScope, []*ty
 	sc := types.NewScope(parent, m.Pos(), m.Pos()+token.Pos(len(m.Name())), "verif iface contract")
 	sig := m.Type().(*types.Signature)
 	origin := named.Origin()
+	if oi, ok := origin.Underlying().(*types.Interface); ok && origin.TypeParams().Len() > 0 {
+		for i := 0; i < oi.NumMethods(); i++ {
+			if om := oi.Method(i); om.Name() == m.Name() {
+				sig = om.Type().(*types.Signature)
+			}
+		}
+	}
 	self := types.NewVar(token.NoPos, pk.Types, "self", origin)
 	if origin.TypeParams().Len() > 0 {
 		// self is typed with the generic interface instantiated by its own type parameters
@@ -1375,6 +1386,12 @@ func (ex *Exec) ifaceEnv(named *types.Named, m *types.Func, recv *Agg, args []Va
 	pk := ex.prog.Pkgs[named.Obj().Pkg().Path()]
 	env := &SpecEnv{ex: ex, pkg: pk, pos: sc.pos, st: post, old: pre, objs: map[types.Object]Val{}, entry: map[types.Object]Val{},
 		label: named.Obj().Name() + "." + m.Name()}
+	if o := named.Origin(); o.TypeParams().Len() > 0 && named.TypeArgs().Len() == o.TypeParams().Len() {
+		env.tparams = map[*types.TypeParam]types.Type{}
+		for i := 0; i < o.TypeParams().Len(); i++ {
+			env.tparams[o.TypeParams().At(i)] = named.TypeArgs().At(i)
+		}
+	}
 	env.objs[self] = recv
 	env.entry[self] = recv
 	for i, p := range params {
